@@ -38,6 +38,9 @@ class Pattern(Leaf):
 
     def _pretty(self, lean=False):
         _ = lean
+        if self.pattern == '.':
+            # `/./` is the symbol of Dot, which, unlike the regex, also matches a newline
+            return "?'.'"
         pat = self.pattern or ""
         # multiline patterns are OK
         pat = trim(pat)
